@@ -375,6 +375,8 @@ pub trait Stepper {
     fn observe(&mut self);
     /// Record the end of a task poll in the action list.
     fn note_yield(&mut self);
+    /// Did the last poll return Pending (call / stream not finished)?
+    fn pending(&self) -> bool;
 }
 
 thread_local! {
@@ -761,6 +763,9 @@ impl Stepper for Runner<'_> {
     fn note_yield(&mut self) {
         self.acts.push(Act::Yield);
     }
+    fn pending(&self) -> bool {
+        self.polled && self.ret.is_none()
+    }
     fn acts(&self) -> &[Act] {
         &self.acts
     }
@@ -1080,6 +1085,9 @@ impl Stepper for Consumer<'_> {
     }
     fn note_yield(&mut self) {
         self.acts.push(Act::Yield);
+    }
+    fn pending(&self) -> bool {
+        self.stream_live() && self.last_pending
     }
     fn acts(&self) -> &[Act] {
         &self.acts
